@@ -853,7 +853,7 @@ class SArr(object):
             raise Unsupported("cumsum on nd array")
         out = []
         r = None
-        for c in self.a.tolist():
+        for c in self.la.tolist():
             r = c if r is None else r + c
             out.append(r)
         dt = self.dt if self.dt.kind != "b" else rnp.dtype("i8")
@@ -863,12 +863,12 @@ class SArr(object):
         if self.a.ndim != 1:
             raise Unsupported("argsort on nd array")
         stable = kind in ("stable", "mergesort")
-        return SArr(_obj_array(_argsort_cells(self.a.tolist(), stable)), rnp.dtype("i8"))
+        return SArr(_obj_array(_argsort_cells(self.la.tolist(), stable)), rnp.dtype("i8"))
 
     def sort(self, axis=-1, kind=None, **kw):
         if self.a.ndim != 1:
             raise Unsupported("sort on nd array")
-        cells = self.a.tolist()
+        cells = self.la.tolist()
         order = _argsort_cells(cells)
         for i, j in enumerate(order):
             self.a[i] = cells[j]
@@ -876,7 +876,7 @@ class SArr(object):
     def argmax(self, axis=None):
         if self.a.ndim != 1:
             raise Unsupported("argmax nd")
-        cells = self.a.tolist()
+        cells = self.la.tolist()
         best = 0
         for i in range(1, _py_len(cells)):
             if cells[i] > cells[best]:
@@ -886,7 +886,7 @@ class SArr(object):
     def argmin(self, axis=None):
         if self.a.ndim != 1:
             raise Unsupported("argmin nd")
-        cells = self.a.tolist()
+        cells = self.la.tolist()
         best = 0
         for i in range(1, _py_len(cells)):
             if cells[i] < cells[best]:
@@ -1239,7 +1239,7 @@ def _unary(f, to_float=True):
         if _py_isinstance(x, (SArr, list, tuple, rnp.ndarray)):
             xa = asarray(x)
             dt = rnp.dtype("f8") if (to_float and xa.dt.kind != "f") else xa.dt
-            r = SArr(_map(f, xa.a), dt)
+            r = SArr(_map(f, xa.la), dt)
             if out is not None:
                 out[...] = r
                 return out
@@ -1394,7 +1394,7 @@ minimum = _binary(lambda a, b: _minimum_cells([a, b]))
 def deg2rad(x, out=None, **kw):
     hook = _TRIG.get("deg2rad")
     if hook is not None:
-        r = SArr(_map(hook, asarray(x).a), rnp.dtype("f8")) if _py_isinstance(x, (SArr, list, tuple)) else hook(x)
+        r = SArr(_map(hook, asarray(x).la), rnp.dtype("f8")) if _py_isinstance(x, (SArr, list, tuple)) else hook(x)
     else:
         r = x * (pi_value() / 180.0)
     if out is not None:
@@ -1406,7 +1406,7 @@ def deg2rad(x, out=None, **kw):
 def rad2deg(x, out=None, **kw):
     hook = _TRIG.get("rad2deg")
     if hook is not None:
-        r = SArr(_map(hook, asarray(x).a), rnp.dtype("f8")) if _py_isinstance(x, (SArr, list, tuple)) else hook(x)
+        r = SArr(_map(hook, asarray(x).la), rnp.dtype("f8")) if _py_isinstance(x, (SArr, list, tuple)) else hook(x)
     else:
         r = x * (180.0 / pi_value())
     if out is not None:
@@ -1443,7 +1443,7 @@ def clip(x, a_min=None, a_max=None, out=None, **kw):
     for b in (a_min, a_max):
         if b is not None and _cell_dtype(b).kind == "f" and dt.kind != "f":
             dt = rnp.dtype("f8")
-    r = SArr(_map(lambda c: cast_cell(f(c), dt), xa.a), dt)
+    r = SArr(_map(lambda c: cast_cell(f(c), dt), xa.la), dt)
     if out is not None:
         out[...] = r
         return out
@@ -1570,7 +1570,7 @@ def median(x, axis=None, **kw):
     xa = asarray(x)
     if axis is not None or xa.ndim != 1:
         raise Unsupported("median on nd array / axis")
-    cells = xa.a.tolist()
+    cells = xa.la.tolist()
     n = _py_len(cells)
     if n == 0:
         return nan
@@ -1585,7 +1585,7 @@ def unique(x, return_index=False, return_inverse=False, return_counts=False, **k
     if return_inverse or return_counts:
         raise Unsupported("unique(return_inverse/return_counts)")
     xa = asarray(x).ravel()
-    cells = xa.a.tolist()
+    cells = xa.la.tolist()
     order = _argsort_cells(cells)
     keep = []
     for j in order:
@@ -1601,7 +1601,7 @@ def searchsorted(a, v, side="left", sorter=None):
     a = asarray(a)
     if a.ndim != 1:
         raise ValueError("object too deep for desired array")
-    cells = a.a.tolist()
+    cells = a.la.tolist()
     if sorter is not None:
         srt = [_py_int(i) for i in asarray(sorter).a.tolist()]
         cells = [cells[i] for i in srt]
@@ -1633,21 +1633,21 @@ def dot(x, y):
     if xa.ndim == 1 and ya.ndim == 1:
         if xa.shape != ya.shape:
             raise ValueError("shapes %s and %s not aligned" % (xa.shape, ya.shape))
-        return symx.sym_sum([p * q for p, q in zip(xa.a.tolist(), ya.a.tolist())])
+        return symx.sym_sum([p * q for p, q in zip(xa.la.tolist(), ya.la.tolist())])
     if xa.ndim == 2 and ya.ndim == 1:
         if xa.shape[1] != ya.shape[0]:
             raise ValueError("shapes not aligned")
-        return SArr(_obj_array([symx.sym_sum([p * q for p, q in zip(row, ya.a.tolist())]) for row in xa.a.tolist()]), dt)
+        return SArr(_obj_array([symx.sym_sum([p * q for p, q in zip(row, ya.la.tolist())]) for row in xa.la.tolist()]), dt)
     if xa.ndim == 1 and ya.ndim == 2:
         if xa.shape[0] != ya.shape[0]:
             raise ValueError("shapes not aligned")
         cols = ya.a.T.tolist()
-        return SArr(_obj_array([symx.sym_sum([p * q for p, q in zip(xa.a.tolist(), col)]) for col in cols]), dt)
+        return SArr(_obj_array([symx.sym_sum([p * q for p, q in zip(xa.la.tolist(), col)]) for col in cols]), dt)
     if xa.ndim == 2 and ya.ndim == 2:
         if xa.shape[1] != ya.shape[0]:
             raise ValueError("shapes not aligned")
         cols = ya.a.T.tolist()
-        return SArr(_obj_array([[symx.sym_sum([p * q for p, q in zip(row, col)]) for col in cols] for row in xa.a.tolist()]), dt)
+        return SArr(_obj_array([[symx.sym_sum([p * q for p, q in zip(row, col)]) for col in cols] for row in xa.la.tolist()]), dt)
     raise Unsupported("dot for these ranks")
 
 
@@ -1661,7 +1661,7 @@ def inner(x, y):
 def outer(x, y):
     xa, ya = asarray(x).ravel(), asarray(y).ravel()
     dt = rnp.promote_types(xa.dt, ya.dt)
-    return SArr(_obj_array([[p * q for q in ya.a.tolist()] for p in xa.a.tolist()]), dt) if xa.size and ya.size else zeros((xa.size, ya.size), dt)
+    return SArr(_obj_array([[p * q for q in ya.la.tolist()] for p in xa.la.tolist()]), dt) if xa.size and ya.size else zeros((xa.size, ya.size), dt)
 
 
 def cross(x, y, axisa=-1, axisb=-1, axisc=-1, axis=None):
@@ -1699,7 +1699,7 @@ def convolve(x, k, mode="full"):
     n, m = xa.size, ka.size
     if n == 0 or m == 0:
         raise ValueError("v cannot be empty")
-    xs, ks = xa.a.tolist(), ka.a.tolist()
+    xs, ks = xa.la.tolist(), ka.la.tolist()
     out = []
     for i in range(n + m - 1):
         terms = [xs[j] * ks[i - j] for j in range(n) if 0 <= i - j < m]
